@@ -1,7 +1,7 @@
-// Package sidecarsim assembles a real kvass sidecar (TargetsManager, Service,
-// Proxy, Injector, prom.ConfigManager, scrape.Manager) exactly as
-// cmd/kvass/sidecar.go wires it, with a Prometheus stub and simulated scrape
-// targets behind it.
+// Package sidecarsim runs a real kvass sidecar: the command body of
+// cmd/kvass/sidecar.go itself (TargetsManager, Service, Proxy, Injector,
+// prom.ConfigManager, scrape.Manager, prom.Client, wired by the command), with a
+// Prometheus stub and simulated scrape targets behind it.
 package sidecarsim
 
 import (
@@ -16,17 +16,18 @@ import (
 	"path/filepath"
 	"sort"
 	"strings"
+	"sync"
 
 	"github.com/gin-gonic/gin"
-	"github.com/prometheus/client_golang/prometheus"
 	_ "github.com/prometheus/prometheus/discovery/install" // as cmd/kvass/main.go does
 	"github.com/sirupsen/logrus"
 
 	"tkestack.io/kvass/pkg/prom"
 	"tkestack.io/kvass/pkg/scrape"
 	"tkestack.io/kvass/pkg/shard"
-	"tkestack.io/kvass/pkg/sidecar"
 	"tkestack.io/kvass/pkg/target"
+	"tkestack.io/kvass/pkg/verifcmd"
+	"tkestack.io/kvass/pkg/verifhook"
 )
 
 func init() {
@@ -35,11 +36,10 @@ func init() {
 	gin.DefaultErrorWriter = io.Discard
 }
 
-func quiet() *logrus.Logger {
-	l := logrus.New()
-	l.SetOutput(io.Discard)
-	l.SetLevel(logrus.PanicLevel)
-	return l
+func init() {
+	// the command logs through logrus' standard logger and fresh loggers
+	logrus.SetOutput(io.Discard)
+	logrus.SetLevel(logrus.PanicLevel)
 }
 
 // Options of one sidecar "process".
@@ -48,99 +48,258 @@ type Options struct {
 	ConfigFile   string // "" = push mode (config comes from the coordinator)
 	ShardMonitor bool
 	Targets      http.RoundTripper // what the proxy's scrape clients talk to
+	// PromHost: host:port of this sidecar's Prometheus (several sidecars in one world need
+	// different ones); "" = 127.0.0.1:9090, the command's default
+	PromHost string
 }
 
-// Sidecar is one running sidecar instance ("process"). Restart creates a new one
-// over the same directory.
+// Sidecar is one running sidecar instance ("process"): the real `kvass sidecar` command
+// body (cmd/kvass/sidecar.go, compiled as a package by the build overlay) runs in its own
+// goroutine; its two listeners are handed to the simulator instead of sockets. Restart
+// creates a new one over the same directory.
 type Sidecar struct {
 	Opt     Options
 	OutFile string
 
-	ScrapeManager *scrape.Manager
-	ConfigManager *prom.ConfigManager
-	TargetManager *sidecar.TargetsManager
-	Proxy         *sidecar.Proxy
-	Injector      *sidecar.Injector
-	Service       *sidecar.Service
+	Service http.Handler // what the command serves on --web.api-addr
+	Proxy   http.Handler // what the command serves on --web.proxy-addr
 
-	// Prometheus stub hooks
+	// Prometheus stub hooks (the command's prom client reaches them through http.DefaultTransport)
 	Reloads    int
 	ReloadErr  error
 	HeadSeries func() (int64, error)
 	OnReload   func()
 
 	LoadErr error
+
+	stop    chan struct{}
+	ready   chan struct{}
+	exited  chan struct{}
+	nListen int
+	stopped bool
 }
 
 const ProxyURL = "http://127.0.0.1:8008"
 const PromURL = "http://127.0.0.1:9090"
 
-// Start replicates the wiring of cmd/kvass/sidecar.go (callbacks in the same
-// order) and runs the start path: ReloadFromFile (file mode) and Load.
-// A Load error is what makes the real command panic; it is returned in LoadErr.
-func Start(opt Options) *Sidecar {
-	lg := quiet()
-	s := &Sidecar{Opt: opt, OutFile: filepath.Join(opt.Dir, "prometheus_injected.yaml")}
-	reg := prometheus.NewRegistry()
-	s.ScrapeManager = scrape.New(false, lg)
-	s.ConfigManager = prom.NewConfigManager()
-	s.TargetManager = sidecar.NewTargetsManager(filepath.Join(opt.Dir, "store"), reg, lg)
-	s.Proxy = sidecar.NewProxy(s.ScrapeManager.GetJob,
-		func() map[uint64]*target.ScrapeStatus { return s.TargetManager.TargetsInfo().Status },
-		s.ConfigManager.ConfigInfo, reg, lg)
-	s.Injector = sidecar.NewInjector(s.OutFile, sidecar.InjectConfigOptions{
-		ProxyURL: ProxyURL, PrometheusURL: PromURL, ShardMonitorEnable: opt.ShardMonitor}, reg, lg)
-	reload := func() error {
+var (
+	mu       sync.Mutex
+	starting *Sidecar
+	byProm   = map[string]*Sidecar{}
+	live     []*Sidecar
+	hookOnce sync.Once
+)
+
+// Router answers requests to a sidecar's Prometheus from the stub and passes everything
+// else on. It must be (in) http.DefaultTransport while sidecars run.
+type Router struct{ Next http.RoundTripper }
+
+func (r *Router) RoundTrip(req *http.Request) (*http.Response, error) {
+	mu.Lock()
+	s := byProm[req.URL.Host]
+	mu.Unlock()
+	if s == nil {
+		if r.Next == nil {
+			return nil, fmt.Errorf("sidecarsim: no route to %s", req.URL.Host)
+		}
+		return r.Next.RoundTrip(req)
+	}
+	if req.Body != nil {
+		_, _ = io.Copy(io.Discard, req.Body)
+		_ = req.Body.Close()
+	}
+	rr := httptest.NewRecorder()
+	s.prometheus(rr, req)
+	return rr.Result(), nil
+}
+
+// prometheus is the stub of the Prometheus process next to the sidecar.
+func (s *Sidecar) prometheus(w http.ResponseWriter, req *http.Request) {
+	switch {
+	case req.Method == "POST" && req.URL.Path == "/-/reload":
 		s.Reloads++
 		if s.OnReload != nil {
 			s.OnReload()
 		}
-		return s.ReloadErr
+		if s.ReloadErr != nil {
+			http.Error(w, s.ReloadErr.Error(), 500)
+			return
+		}
+		w.WriteHeader(200)
+	case req.Method == "GET" && req.URL.Path == "/api/v1/status/tsdb":
+		var n int64
+		if s.HeadSeries != nil {
+			var err error
+			if n, err = s.HeadSeries(); err != nil {
+				http.Error(w, err.Error(), 500)
+				return
+			}
+		}
+		w.Header().Set("Content-Type", "application/json")
+		fmt.Fprintf(w, `{"status":"success","data":{"headStats":{"numSeries":%d}}}`, n)
+	default:
+		http.Error(w, "not found", 404)
 	}
-	s.ConfigManager.AddReloadCallbacks(
-		func(cfg *prom.ConfigInfo) error { return nil }, // configInjectSidecar with no service-account path
-		s.ScrapeManager.ApplyConfig,
-		func(cfg *prom.ConfigInfo) error { // harness: route the scrape clients to the simulated targets
-			if opt.Targets != nil {
-				for _, j := range cfg.Config.ScrapeConfigs {
-					if ji := s.ScrapeManager.GetJob(j.JobName); ji != nil {
-						ji.Cli.Transport = opt.Targets
-					}
-				}
+}
+
+func installHooks() {
+	listen := func(addr string, h http.Handler) error {
+		mu.Lock()
+		s := starting
+		if s == nil {
+			mu.Unlock()
+			return fmt.Errorf("sidecarsim: listen on %s outside a start", addr)
+		}
+		switch addr {
+		case ":8080":
+			s.Service = h
+		case ":8008":
+			s.Proxy = h
+		default:
+			mu.Unlock()
+			return fmt.Errorf("sidecarsim: unexpected listen address %q", addr)
+		}
+		s.nListen++
+		if s.nListen == 2 {
+			close(s.ready)
+		}
+		mu.Unlock()
+		<-s.stop
+		return http.ErrServerClosed
+	}
+	verifhook.ListenFn.Store(&listen)
+}
+
+// Start runs the real command body of `kvass sidecar` (its own wiring: callbacks, their
+// order, the start path ReloadFromFile / Load) until it serves. Where the command panics
+// (unreadable configuration file, Load error) the panic value is returned in LoadErr.
+func Start(opt Options) *Sidecar {
+	hookOnce.Do(installHooks)
+	if _, ok := http.DefaultTransport.(*Router); !ok {
+		http.DefaultTransport = &Router{Next: http.DefaultTransport}
+	}
+	s := &Sidecar{Opt: opt, OutFile: filepath.Join(opt.Dir, "prometheus_injected.yaml"),
+		stop: make(chan struct{}), ready: make(chan struct{}), exited: make(chan struct{})}
+	promHost := opt.PromHost
+	if promHost == "" {
+		promHost = "127.0.0.1:9090"
+	}
+	// the scrape clients the command builds are pointed at the simulated targets
+	if opt.Targets != nil {
+		tr := opt.Targets
+		fn := func(c *http.Client) { c.Transport = tr }
+		verifhook.ClientFn.Store(&fn)
+	} else {
+		verifhook.ClientFn.Store(nil)
+	}
+	args := []string{
+		"--config.file=" + opt.ConfigFile,
+		"--config.output-file=" + s.OutFile,
+		"--store.path=" + filepath.Join(opt.Dir, "store"),
+		"--web.proxy-addr=:8008",
+		"--web.api-addr=:8080",
+		"--prometheus.url=http://" + promHost,
+		"--inject.proxy=" + ProxyURL,
+		"--inject.kubernetes-sa-path=",
+		"--shard.fetch-head-series=true",
+		"--scrape.disable-keep-alive=false",
+		fmt.Sprintf("--shard.self-monitor=%v", opt.ShardMonitor),
+	}
+	mu.Lock()
+	if old := byProm[promHost]; old != nil && !old.stopped {
+		mu.Unlock()
+		old.Stop() // the process this one replaces
+		mu.Lock()
+	}
+	byProm[promHost] = s
+	starting = s
+	live = append(live, s)
+	mu.Unlock()
+	go func() {
+		defer close(s.exited)
+		defer func() {
+			if r := recover(); r != nil {
+				s.LoadErr = fmt.Errorf("%v", r)
 			}
-			return nil
-		},
-		s.Injector.ApplyConfig,
-		func(cfg *prom.ConfigInfo) error { return reload() },
-	)
-	s.TargetManager.AddUpdateCallbacks(
-		s.Injector.UpdateTargets,
-		func(map[string][]*target.Target) error { return reload() },
-	)
-	s.Service = sidecar.NewService(opt.ConfigFile, PromURL,
-		func() (int64, error) {
-			if s.HeadSeries != nil {
-				return s.HeadSeries()
+		}()
+		if err := verifcmd.RunSidecar(args); err != nil && err != http.ErrServerClosed && s.LoadErr == nil {
+			select {
+			case <-s.stop:
+			default:
+				s.LoadErr = err
 			}
-			return 0, nil
-		}, s.ConfigManager, s.TargetManager, reg, lg)
-	if opt.ConfigFile != "" {
-		if err := s.ConfigManager.ReloadFromFile(opt.ConfigFile); err != nil {
-			s.LoadErr = fmt.Errorf("reload config file: %w", err)
-			return s
+		}
+	}()
+	select {
+	case <-s.ready:
+	case <-s.exited:
+		if s.LoadErr == nil {
+			s.LoadErr = fmt.Errorf("sidecar command returned before serving")
 		}
 	}
-	if err := s.TargetManager.Load(); err != nil {
-		s.LoadErr = err
-	}
+	mu.Lock()
+	starting = nil
+	mu.Unlock()
 	return s
+}
+
+// Stop ends the "process": its listeners return, the command body returns.
+func (s *Sidecar) Stop() {
+	mu.Lock()
+	if s.stopped {
+		mu.Unlock()
+		return
+	}
+	s.stopped = true
+	ph := s.Opt.PromHost
+	if ph == "" {
+		ph = "127.0.0.1:9090"
+	}
+	if byProm[ph] == s {
+		delete(byProm, ph)
+	}
+	for i, x := range live {
+		if x == s {
+			live = append(live[:i], live[i+1:]...)
+			break
+		}
+	}
+	mu.Unlock()
+	close(s.stop)
+	<-s.exited
+}
+
+// StopAll ends every sidecar still running (end of a run / of a bubble).
+func StopAll() {
+	for {
+		mu.Lock()
+		if len(live) == 0 {
+			mu.Unlock()
+			return
+		}
+		s := live[0]
+		mu.Unlock()
+		s.Stop()
+	}
 }
 
 // Restart: a new process over the same directory; nothing in memory survives.
 func (s *Sidecar) Restart() *Sidecar {
+	s.Stop()
 	n := Start(s.Opt)
 	n.HeadSeries = s.HeadSeries
 	return n
+}
+
+// ConfigText is the configuration the sidecar runs, as its own API reports it.
+func (s *Sidecar) ConfigText() string {
+	var d struct {
+		YAML string `json:"yaml"`
+	}
+	if err := decode(s.do("GET", "/api/v1/status/config/", nil), &d); err != nil {
+		return ""
+	}
+	return d.YAML
 }
 
 // ---- API access through the real gin routes
